@@ -8,9 +8,10 @@ from harness import dp, bv, projgen, gitbox
 
 ID = "C11"
 LEVEL = "exploration"
-STATUSES = ["clean", "modified-unstaged", "modified-staged", "modified-both", "added", "deleted-unstaged", "deleted-staged", "renamed", "untracked"]
+STATUSES = ["clean", "modified-unstaged", "modified-staged", "modified-both", "added", "deleted-unstaged", "deleted-staged", "renamed", "untracked",
+            "typechange-unstaged", "typechange-staged"]
 RULE = ("Real git repositories. A (enumerated, both tiers): every status git can report for a file (clean, modified-unstaged, "
-        "modified-staged, modified-both, added, deleted-unstaged, deleted-staged, renamed, renamed-then-edited, untracked) x {pattern file (named plainly, as ./path or through a glob), "
+        "modified-staged, modified-both, added, deleted-unstaged, deleted-staged, renamed, renamed-then-edited, untracked, type change (file replaced by a symbolic link) unstaged / staged) x {pattern file (named plainly, as ./path or through a glob), "
         "unrelated file} x --allow-dirty on/off x file in the top directory or a sub-directory x with/without a (no-op) pre-commit hook (320 cases) plus every status x pattern/unrelated x --allow-dirty for four file names that git prints quoted (blank, blank in the directory, non-ASCII with core.quotePath on and off, double quote + backslash; 200 cases). B (Hypothesis): "
         "1..4 files (pattern files and unrelated files, sub-directories) with independent statuses, --allow-dirty on/off. "
         "The status text is whatever the real `git status --porcelain` prints. Oracle: expected abort iff (some file has a "
@@ -55,6 +56,14 @@ def apply_status(repo, path, status, is_pattern):
         gitbox.git(repo, "rm", "-q", "--", path)
     elif status == "renamed":
         gitbox.git(repo, "mv", "--", path, path + ".moved")
+    elif status.startswith("typechange"):
+        # the regular file becomes a symbolic link (to a file with the same content): porcelain prints " T path" / "T  path"
+        target = path + ".target"
+        projgen.write_file(repo, target, content(OLD) if is_pattern else "unrelated\n")
+        os.unlink(full)
+        os.symlink(os.path.basename(target), full)
+        if status == "typechange-staged":
+            gitbox.git(repo, "add", "--", path)
     elif status == "renamed-modified":
         # renamed in the index, then edited in the working tree: porcelain prints "RM old -> new"
         new = os.path.join(os.path.dirname(path), "renamed_" + os.path.basename(path))
@@ -131,7 +140,7 @@ def run_case(files, allow_dirty, pre_hook=False, quotepath=False):
         # still be uncommitted: bumpver stages the configured files only
         committed = {x for x in gitbox.git(tmp, "show", "--name-only", "--format=", "-z", "HEAD").split("\0") if x}
         for f in files:
-            if not f["pattern"] and f["status"] in ("modified-unstaged", "deleted-unstaged", "untracked") and f["path"] in committed:
+            if not f["pattern"] and f["status"] in ("modified-unstaged", "deleted-unstaged", "untracked", "typechange-unstaged") and f["path"] in committed:
                 return viol("unstaged-change-of-unrelated-file-swept-into-bump-commit", dict(sig, which=f["status"]), dict(detail, committed=sorted(committed)))
         nt = any(f["status"] != "clean" for f in files)
         return ok(nt=nt, classes=("proceed",))
